@@ -2,7 +2,9 @@ package taskfile
 
 import (
 	"fmt"
+	"maps"
 	"os"
+	"slices"
 
 	"github.com/joho/godotenv"
 
@@ -30,9 +32,12 @@ func Dotenv(vars *ast.Vars, tf *ast.Taskfile, dir string) (*ast.Vars, error) {
 		if err != nil {
 			return nil, fmt.Errorf("error reading env file %s: %w", dotEnvPath, err)
 		}
-		for key, value := range envs {
+		// godotenv hands the file back as a map: store its variables in a fixed
+		// order, since values are templated in the order they were stored and may
+		// refer to each other
+		for _, key := range slices.Sorted(maps.Keys(envs)) {
 			if _, ok := env.Get(key); !ok {
-				env.Set(key, ast.Var{Value: value})
+				env.Set(key, ast.Var{Value: envs[key]})
 			}
 		}
 	}
